@@ -59,7 +59,22 @@ def r08_1(chk):
     chk.inst("R08.1", f"{f.ref}::native-step-bounds", ok, "points before start skipped, after stop end the loop (both bounds inclusive); a copy of each stored point is yielded" if ok else "changed", loc(f, native[0] if native else f.node))
     ok = any(isinstance(n, ast.For) and unparse(n.iter) == "dates" and unparse(n.body[0]) == "orb = self.propagate(date)" for n in ast.walk(f.node))
     chk.inst("R08.1", f"{f.ref}::dates-verbatim", ok, "an explicit list of dates is interpolated date by date, in order" if ok else "changed", loc(f, f.node))
-    chk.floor("R08.1", 6)
+    # the requested bounds are refused / clamped only when they lie strictly outside the table (a request ending exactly on
+    # the last stored date is inside)
+    found = {}
+    for n in ast.walk(f.node):
+        for l, op, r in cmp_triples(n):
+            lt, rt = unparse(l), unparse(r)
+            for name, attr, good in (("start", "self.start", "<"), ("stop", "self.stop", ">")):
+                if (lt, rt) == (name, attr):
+                    found.setdefault(name, []).append(op == good)
+                elif (lt, rt) == (attr, name):
+                    found.setdefault(name, []).append(op == {"<": ">", ">": "<"}[good])
+    for name in ("start", "stop"):
+        ok = bool(found.get(name)) and all(found[name])
+        chk.inst("R08.1", f"{f.ref}::{name}-strictly-outside", ok, f"`{name}` is refused or clamped only when strictly outside the stored dates" if ok else
+                 f"the range test of `{name}` is not the strict one: a request on the boundary date is refused / moved", loc(f, f.node))
+    chk.floor("R08.1", 8)
 
 
 def _frontend_facts(f):
